@@ -17,12 +17,25 @@ GEN     Gen_Names -> harness `names replay`; the expected values are TLC's:
                     universe has more than a dozen labels                      [seed C19-16: Split capped at 126 offsets]
           crowdpairs    each such name against itself, its parent (both ways), its case-flipped self, a sibling, and
                     names sharing none / half of its labels                   [seed C19-16]
+          rawpairs  names whose octets outside ASCII are written as they are (Names!RawPresent: a zone file in UTF-8 or
+                    Latin-1): 20 octet strings that are letters / case pairs / fold to ASCII letters / are no UTF-8 at
+                    all to a reader of RUNES (0xC3 0x89 - 0xC3 0xA9, KELVIN SIGN - k, LONG S - s, 0x80 - 0x81, U+FFFD)
+                    pairwise at 4 places of a name, and every octet raw against the octets differing in bit 0x20,
+                    by one, in bit 0x80: the helpers compare OCTETS, folding ASCII letters only     [seed C19-19]
+          rawtexts  every valid text of <= N symbols over {a K . \\. 0x80 0xC3-0x89 KELVIN-SIGN \\200}: every helper on
+                    texts with raw octets (CanonicalName lower-cases ASCII letters and nothing else)
 TV      harness `names record c19` -> Trace_Names (TLC judges each event)
           helpers   random names up to 255 octets over all octet values (1 in 10 crowded: one-octet labels as many
                     as fit, up to 127), fully qualified or relative
-          compare   pairs sharing a case-flipped suffix (1 in 10: a crowded name against a suffix / sibling)
+                    1 in 6 made of labels that are letters to a reader of UTF-8, 1 in 4 with the octets outside ASCII raw
+          compare   pairs sharing a case-flipped suffix (1 in 10: a crowded name against a suffix / sibling); 1 in 4 the
+                    suffix is made of such labels, the other name has octets above 0x7f changed the way a reader of runes
+                    thinks harmless (bit 0x20, another such octet, k/s -> KELVIN SIGN / LONG S); 1 in 4 no prefixes: the
+                    two names differ in spelling only; 1 in 3 raw                                  [seed C19-19]
 Mutants (checks/mutants/C19): the four above; countlabel-cap (CountLabel stops at 126: crowdhelpers, crowdpairs through
-IsSubDomain, helpers events), nextlabel-ddd-dot (NextLabel takes \\046 for a separator: etexts).
+IsSubDomain, helpers events), nextlabel-ddd-dot (NextLabel takes \\046 for a separator: etexts), canonical-tolower
+(CanonicalName through strings.ToLower: rawtexts, helpers events), compare-equalfold-label (labels compared with
+strings.EqualFold: rawpairs, compare events).
 """
 import vp
 from checks import c03
@@ -42,6 +55,8 @@ def run(ctx):
         jobs += gen_jobs(ctx, binp, "crowdhelpers", 2, 1, [0])
         jobs += gen_jobs(ctx, binp, "crowdpairs", 2, 1, [0])
         jobs += gen_jobs(ctx, binp, "octpairs", 0, 1, [0])
+        jobs += gen_jobs(ctx, binp, "rawpairs", 0, 1, [0])
+        jobs += gen_jobs(ctx, binp, "rawtexts", 4, 1, [0])
         vp.parallel(jobs, maxpar=c03.QUICK_PAR)
     else:
         ctx.tlc("MC_Names", timeout=1800)
@@ -50,6 +65,8 @@ def run(ctx):
         gen(ctx, binp, "etexts", 6, 16, range(16))
         gen(ctx, binp, "pairs", 4, 16, range(16))
         gen(ctx, binp, "octpairs", 0, 1, [0])
+        gen(ctx, binp, "rawpairs", 0, 1, [0])
+        gen(ctx, binp, "rawtexts", 6, 16, range(16))
         gen(ctx, binp, "crowdhelpers", 8, 8, range(8))
         gen(ctx, binp, "crowdpairs", 8, 8, range(8))
         tv(ctx, binp, "c19", 3000, 16)
@@ -57,7 +74,8 @@ def run(ctx):
     return ctx.finish(rule="vectors: every name over octets {a A 0 . \\ 0x00 0xc8} with sum(len+1) <= N every valid TEXT over symbols {a A 0 . \\ \\. \\200} and over {a 0 . \\ \\046 \\092 \\048 \\\\ \\.} up to N symbols in any escape spelling, and every ordered pair up to the "
                       "pair bound; the valid names of 127-N..127 labels of 1-2 octets (wire length 250..255) x 5 fills, each against itself, its parent, "
                       "its case-flipped self, a sibling and names sharing none / half of its labels; events: random names up to 255 octets "
-                      "over all octet values incl. names of up to 127 one-octet labels, pairs sharing a case-flipped suffix. "
+                      "over all octet values incl. names of up to 127 one-octet labels, pairs sharing a case-flipped suffix, names with raw octets above 0x7f (UTF-8 letters, non-UTF-8) "
+                      "against each other; vectors rawpairs / rawtexts: 20 such octet strings pairwise at 4 places, every octet raw against 3 neighbours, every valid text over 8 raw/escaped symbols. "
                       "distinct = distinct texts / pairs; all are non-trivial (at least one helper result compared)")
 
 
